@@ -1,7 +1,7 @@
 import json
 from propbase import Prop, COMMON_TRUSTED, drop_one
 from coqterm import cZ, cnat, clist, cpair
-from mw_common import Broken, c_op, c_obs, c_desc, strip_outputs, count_ops
+from mw_common import Broken, c_op, c_obs, c_desc, strip_outputs, count_ops, fewer_ops
 
 
 class C18(Prop):
@@ -12,8 +12,9 @@ class C18(Prop):
     case_imports = ["Moc.Msg", "Moc.Mw", "Moc.MwCheck"]
     harness_bin = "core"
     harness_sub = "c18"
-    sizes = {"quick": 3000, "thorough": 60000}
-    gen_names = ("g_quota_over", "g_recv_unique", "g_send_unique", "g_mw_max_filters", "GenMw", "handler.go")
+    sizes = {"quick": 3000, "thorough": 120000}
+    gen_names = ("g_quota_over", "g_recv_unique", "g_send_unique", "g_mw_max_filters", "g_mw_ctor_bad_max_subs")
+    max_reports = 3
     rule = ("60% one stateful middleware (quota N, receive-side window, send-side window; N, size cycling through 1,2,3), "
             "40% stacks of two or three different ones in a random order (sometimes with a stateless limit in between); "
             "1..6 sessions of ONE handler value advanced one operation at a time in a harness-chosen interleaving; histories "
@@ -61,7 +62,7 @@ class C18(Prop):
 
     def shrink(self, c):
         c = strip_outputs(c)
-        for ops in drop_one(c.get("ops") or []):
+        for ops in fewer_ops(c.get("ops") or []):
             yield dict(c, ops=ops)
         if len(c.get("mws") or []) > 1:
             for mws in drop_one(c["mws"]):
@@ -75,6 +76,15 @@ class C18(Prop):
                     ops = [dict(o, s=o["s"] - 1 if o["s"] > s else o["s"]) for o in c["ops"]]
                     yield dict(c, nsess=n - 1, ops=ops)
                     break
+
+    def extra_coverage(self, cases, tier):
+        if tier != "thorough":
+            return {}
+        return {"exhaustive_subspaces": [
+            "quota N=1..3: every history of length 0..5 over {REQ,CLOSE}x{a,b,c} (one session)",
+            "receive-side window 1..3: every history of length 0..8 over client EVENTx{x,y,z}",
+            "send-side window 1..3: every history of length 0..8 over server EVENTx{x,y,z}",
+        ], "exhaustive": False}
 
     def summarize(self, c):
         return {"mws": c.get("mws"), "nsess": c.get("nsess"), "n_ops": len(c.get("ops") or [])}
